@@ -279,6 +279,47 @@ let do_layout t =
         string_of_int w) (split_on ';' cs))
   | _ -> "badcase"
 
+(* ---------------- large-size headers (no payload is materialised) ----------------
+   hdr: the header is the proved codec's header function of the size (HeaderRowsProofs.w_bin_header
+   etc.: w_bin s = bin_hdr (len s) ++ s), the total length follows from it, and the round trip theorem
+   says the Reader returns the n bytes / elements written and leaves the sentinel. *)
+let mask62 = (1 lsl 62) - 1
+let mix h x = (h * 31 + x) land mask62
+let pat i = (i * 131 + (i lsr 8) * 17 + 7) land 255
+let n_of_i i = n_of_z (Z.of_int i)
+let do_hdr t =
+  match t with
+  | "hdr" :: k :: a :: r ->
+      let n = int_of_string a in
+      let bytes_sum () = let h = ref 0 in for i = 0 to n - 1 do h := mix !h (pat i) done; !h in
+      let line hd payload tail desc =
+        hex hd ^ " total=" ^ string_of_int (List.length hd + payload) ^ " tail=" ^ tail ^ " | rd " ^ desc ^ " rest=1" in
+      if n >= 4294967296 then raise Err else
+      (match k, r with
+       | "str", [] -> line (M.str_hdr (n_of_i n)) n "1" ("n=" ^ a ^ " sum=" ^ string_of_int (bytes_sum ()))
+       | "bin", [] -> line (M.bin_hdr (n_of_i n)) n "1" ("n=" ^ a ^ " sum=" ^ string_of_int (bytes_sum ()))
+       | "ext", [ty] -> line (M.ext_hdr (zarg ty) (n_of_i n)) n "1" ("ty=" ^ sh_z (zarg ty) ^ " n=" ^ a ^ " sum=" ^ string_of_int (bytes_sum ()))
+       | "arr", [] ->
+           let h = ref 0 in for i = 0 to n - 1 do h := mix !h ((i * 2654435761) land 0xffffffff) done;
+           line (M.arr_hdr (n_of_i n)) (5 * n) "-" ("n=" ^ a ^ " sum=" ^ string_of_int !h)
+       | "map", [] ->
+           let h = ref 0 in for i = 0 to n - 1 do h := !h + i * 31 + ((i * 2654435761) land 0xffffffff) done;
+           line (M.map_hdr (n_of_i n)) (10 * n) "-" ("n=" ^ a ^ " sum=" ^ string_of_int (!h land mask62))
+       | _ -> "badcase")
+  | _ -> "badcase"
+(* bigparam: Properties_C13_headers.C13_parameter_file_prefix *)
+let do_bigparam t =
+  match t with
+  | ["bigparam"; a; ws] ->
+      let n = int_of_string a in
+      (match M.mk_shape [n_of_i n] (n_of_i 1) with
+       | None -> raise Err
+       | Some sh ->
+           let pre = M.param_file_prefix sh in
+           ignore ws;
+           hex pre ^ " total=" ^ string_of_int (List.length pre + 4 * n + 5) ^ " suffix=" ^ hex (M.w_u32 M.N0) ^ " payload=1 load=ok same=1")
+  | _ -> "badcase"
+
 (* ---------------- model-only commands ---------------- *)
 (* independent oracle: the whole file must be a sequence of MessagePack objects whose trees
    have the documented layout and carry exactly the content of [o] *)
@@ -354,6 +395,8 @@ let eval t =
   | "dmg" :: _ -> do_dmg t
   | "savefail" :: _ -> do_savefail t
   | "layout" :: _ -> do_layout t
+  | "hdr" :: _ -> do_hdr t
+  | "bigparam" :: _ -> do_bigparam t
   | "chk" :: _ -> do_chk t
   | _ -> "badcase"
 let () =
